@@ -4,10 +4,11 @@ From Blue Require Import Lsm.Model Lsm.KeyOrder Lsm.SortLemmas Crash.Model Crash
 Import ListNotations.
 Open Scope N_scope.
 
-(* which compactions the theorems cover: the inputs are live, and the outputs hold exactly the
-   inputs' entries (a merge; garbage collection, which drops entries, is C05's subject) *)
+(* which compactions the file-system walk covers: the inputs are live, and every entry of the
+   outputs is an entry of the inputs (a merge keeps all of them; a garbage collection drops some -
+   which ones it may drop is a matter of what a reader sees, `accepted` in ProofsLts) *)
 Definition compact_ok (v : vstate) (ins outs : list sname) : Prop :=
-  incl ins (v_files v) /\ forall e, In e (concat outs) <-> In e (concat ins).
+  incl ins (v_files v) /\ incl (concat outs) (concat ins).
 
 Lemma enumerate_ge {A} (l : list A) : forall k j y, In (j, y) (enumerate k l) -> (k <= j)%nat.
 Proof.
@@ -35,20 +36,20 @@ Section Compact.
     [CCreate (NComp d (fst ix)); CWrite (NComp d (fst ix)) (CkSst (snd ix)); CSync (NComp d (fst ix))].
 
   (* SstMultiBuilder: the outputs, one after the other *)
-  Lemma outputs_walk eo : forall k s E P, Good s E ->
+  Lemma outputs_walk eo : forall k s X E P, Good s X -> covers E P X ->
     (forall j y, In (j, y) eo -> (k <= j)%nat) ->
     NoDup (map fst eo) ->
     walk (must (flat_map out_calls eo)) s E P
-         (fun s' => Good s' E /\
+         (fun s' => Good s' X /\
                     (forall j y, In (j, y) eo -> lookup (NComp d j) s' = Some (mkFile [CkSst y] 1)) /\
                     (forall n, (forall j, In j (map fst eo) -> n <> NComp d j) -> lookup n s' = lookup n s)).
   Proof.
-    induction eo as [|[i x] eo IH]; intros k s E P Hg Hge Hnd.
-    - cbn [flat_map must map]. apply walk_nil; [now apply good_safe|]. split; [exact Hg|]. split; [intros j y []|reflexivity].
+    induction eo as [|[i x] eo IH]; intros k s X E P Hg Hcv Hge Hnd.
+    - cbn [flat_map must map]. apply walk_nil; [now apply (good_safe_c s X)|]. split; [exact Hg|]. split; [intros j y []|reflexivity].
     - cbn [flat_map]. rewrite must_app. apply walk_app_must.
-      eapply walk_conseq; [|apply (tmp_block (NComp d i) (CkSst x) s E P eq_refl Hg)].
+      eapply walk_conseq; [|apply (tmp_block_c (NComp d i) (CkSst x) s X E P eq_refl Hg Hcv)].
       cbn beta. intros s1 (Hg1 & Ht1 & Ho1). cbn [map fst] in Hnd. inversion Hnd as [|? ? Hi Hnd']; subst.
-      eapply walk_conseq; [|apply (IH k s1 E P Hg1); [intros j y Hj; apply (Hge j y); now right|exact Hnd']].
+      eapply walk_conseq; [|apply (IH k s1 X E P Hg1 Hcv); [intros j y Hj; apply (Hge j y); now right|exact Hnd']].
       cbn beta. intros s' (Hg' & Hl' & Ho'). split; [exact Hg'|]. split.
       + intros j y [H|H]; [|now apply Hl'].
         inversion H; subst j y. rewrite Ho'; [exact Ht1|]. intros j Hj E'. inversion E'; subst j. contradiction.
@@ -58,24 +59,24 @@ Section Compact.
   Qed.
 
   (* compaction_finish: hard_link every output into sst/; AlreadyExists is fine *)
-  Lemma links_walk eo : forall s E P rest (Q : fs -> Prop), Good s E ->
+  Lemma links_walk eo : forall s X E P rest (Q : fs -> Prop), Good s X -> covers E P X ->
     (forall j y, In (j, y) eo -> lookup (NComp d j) s = Some (mkFile [CkSst y] 1)) ->
-    (forall s', Good s' E -> (forall j y, In (j, y) eo -> lookup (NSst y) s' <> None) ->
+    (forall s', Good s' X -> (forall j y, In (j, y) eo -> lookup (NSst y) s' <> None) ->
                 (forall n, (forall y, n <> NSst y) -> lookup n s' = lookup n s) ->
                 (forall y, lookup (NSst y) s <> None -> lookup (NSst y) s' <> None) ->
                 walk rest s' E P Q) ->
     walk (map (fun ix => (CLink (NComp d (fst ix)) (NSst (snd ix)), Exist)) eo ++ rest) s E P Q.
   Proof.
-    induction eo as [|[i x] eo IH]; intros s E P rest Q Hg Hsrc Hrest.
+    induction eo as [|[i x] eo IH]; intros s X E P rest Q Hg Hcv Hsrc Hrest.
     - cbn [map app]. apply Hrest; [exact Hg|intros j y []|reflexivity|auto].
-    - cbn [map app fst snd]. apply walk_exist_cons; [now apply good_safe|].
+    - cbn [map app fst snd]. apply walk_exist_cons; [now apply (good_safe_c s X)|].
       assert (Hsrc_i : lookup (NComp d i) s = Some (mkFile [CkSst x] 1)) by (apply Hsrc; now left).
       unfold exec_or. destruct (exec (CLink (NComp d i) (NSst x)) s) as [s1|] eqn:E1.
       + apply exec_link_inv in E1. destruct E1 as (f1 & L1 & N1 & ->). rewrite Hsrc_i in L1. inversion L1; subst f1. clear L1.
         set (s1 := set (NSst x) (mkFile [CkSst x] 1) s).
-        assert (Hg1 : Good s1 E).
-        { apply (good_add_sst s s1 x E); [apply wf_set, Hg| |exact Hg]. intros m _. unfold s1. now rewrite lookup_set. }
-        apply (IH s1 E P rest Q Hg1).
+        assert (Hg1 : Good s1 X).
+        { apply (good_add_sst s s1 x X); [apply wf_set, Hg| |exact Hg]. intros m _. unfold s1. now rewrite lookup_set. }
+        apply (IH s1 X E P rest Q Hg1 Hcv).
         * intros j y Hj. unfold s1. rewrite lookup_set. cbn [name_eqb]. apply Hsrc. now right.
         * intros s' Hg' Hall Hoth Hmono. apply Hrest; [exact Hg'| | |].
           -- intros j y [H|H]; [|now apply (Hall j y)]. inversion H; subst j y.
@@ -85,26 +86,26 @@ Section Compact.
       + (* the link failed: the source is there, so the target exists already *)
         assert (Hx : lookup (NSst x) s <> None).
         { cbn [exec] in E1. rewrite Hsrc_i in E1. destruct (lookup (NSst x) s); [discriminate|discriminate]. }
-        apply (IH s E P rest Q Hg); [intros j y Hj; apply Hsrc; now right|].
+        apply (IH s X E P rest Q Hg Hcv); [intros j y Hj; apply Hsrc; now right|].
         intros s' Hg' Hall Hoth Hmono. apply Hrest; [exact Hg'| |exact Hoth|exact Hmono].
         intros j y [H|H]; [|now apply (Hall j y)]. inversion H; subst j y. now apply Hmono.
   Qed.
 End Compact.
 
 (* install_version -> explicit_unref: the retired inputs go to trash/, errors ignored *)
-Lemma trash_walk xs : forall s E P rest (Q : fs -> Prop),
-  Good s E -> (forall x, In x xs -> ~ In x (mani_strs s)) ->
-  (forall s', Good s' E -> mani_strs s' = mani_strs s -> (forall n, (forall y, n <> NSst y) -> relevant n = true -> lookup n s' = lookup n s) ->
+Lemma trash_walk xs : forall s X E P rest (Q : fs -> Prop),
+  Good s X -> covers E P X -> (forall x, In x xs -> ~ In x (mani_strs s)) ->
+  (forall s', Good s' X -> mani_strs s' = mani_strs s -> (forall n, (forall y, n <> NSst y) -> relevant n = true -> lookup n s' = lookup n s) ->
               walk rest s' E P Q) ->
   walk (map (fun x => (CRename (NSst x) (NTrashSst x), Retire)) xs ++ rest) s E P Q.
 Proof.
-  induction xs as [|x xs IH]; intros s E P rest Q Hg Hnl Hp.
+  induction xs as [|x xs IH]; intros s X E P rest Q Hg Hcv Hnl Hp.
   - cbn [map app]. apply Hp; [exact Hg|reflexivity|reflexivity].
   - cbn [map app].
     (* the rename is skipped (it fails by itself or by injection) *)
     assert (Hskip : walk (map (fun x => (CRename (NSst x) (NTrashSst x), Retire)) xs ++ rest) s E P Q)
-      by (apply (IH s E P rest Q Hg); [intros y Hy; apply Hnl; now right|exact Hp]).
-    apply walk_retire_cons; [now apply good_safe| |exact (proj1 Hskip)].
+      by (apply (IH s X E P rest Q Hg Hcv); [intros y Hy; apply Hnl; now right|exact Hp]).
+    apply walk_retire_cons; [now apply (good_safe_c s X)| |exact (proj1 Hskip)].
     unfold exec_or. destruct (exec (CRename (NSst x) (NTrashSst x)) s) as [s1|] eqn:E1; [|exact Hskip].
     apply exec_rename_inv in E1. destruct E1 as (f1 & L1 & ->).
     set (s1 := set (NTrashSst x) f1 (remove (NSst x) s)).
@@ -112,9 +113,9 @@ Proof.
     { intros m Hm. unfold s1. rewrite lookup_set, lookup_remove.
       destruct (name_eqb m (NTrashSst x)) eqn:En; [apply name_eqb_eq in En; subst m; discriminate|reflexivity]. }
     assert (Hw1 : wf s1) by (unfold s1; apply wf_set, wf_remove, Hg).
-    assert (Hg1 : Good s1 E) by (apply (good_remove_sst s s1 x E Hw1 Hu); [apply Hnl; now left|exact Hg]).
+    assert (Hg1 : Good s1 X) by (apply (good_remove_sst s s1 x X Hw1 Hu); [apply Hnl; now left|exact Hg]).
     assert (Hstrs1 : mani_strs s1 = mani_strs s) by (apply (upd_rel_strs _ _ _ _ Hu); discriminate).
-    apply (IH s1 E P rest Q Hg1).
+    apply (IH s1 X E P rest Q Hg1 Hcv).
     + intros y Hy. rewrite Hstrs1. apply Hnl. now right.
     + intros s' Hg' Hs' Hl'. apply Hp; [exact Hg'|congruence|].
       intros n Hn Hr. rewrite Hl' by assumption. apply (upd_rel_other _ _ _ _ n Hu Hr). apply Hn.
@@ -130,11 +131,55 @@ Proof.
   apply enumerate_ge in Hj. lia.
 Qed.
 
-Lemma compact_walk s v gc ins outs : Run s v -> compact_ok v ins outs ->
-  walk (compact_prog gc ins outs s) s (all_entries v) None (fun s' => Run s' (op_next v (OpCompact gc ins outs))).
+Lemma late_length cs : length (late cs) = length cs.
+Proof. induction cs as [|c cs IH]; cbn [late length]; [reflexivity|now rewrite IH]. Qed.
+
+Lemma late_cleanup_like cs : Forall irrelevant_call cs -> cleanup_like (late cs).
 Proof.
-  intros R [Hincl Hents]. pose proof (run_good s v R) as Hg. destruct R as [Hw Hst Hs Hl Hstrs Hlogs Hcur].
-  set (E := all_entries v) in *. unfold compact_prog.
+  induction 1 as [|c cs Hc _ IH]; cbn [late]; constructor; [|exact IH].
+  right. right. split; [eexists; reflexivity|exact Hc].
+Qed.
+
+(* the clean-up of a merging compaction: a failing call ends it, the inputs are retired all the same *)
+Lemma late_walk cs : forall s X E P rest (Q : fs -> Prop),
+  Forall irrelevant_call cs -> Good s X -> covers E P X ->
+  (forall s', Good s' X -> same_rel s s' -> walk rest s' E P Q) ->
+  walk (late cs ++ rest) s E P Q.
+Proof.
+  induction cs as [|c cs IH]; intros s X E P rest Q Hall Hg Hcv Hrest.
+  - cbn [late app]. apply Hrest; [exact Hg|apply same_rel_refl].
+  - cbn [late app]. inversion Hall as [|? ? Hc Hcs]; subst.
+    apply walk_late_cons; [now apply (good_safe_c s X)| |].
+    + intros s' Hs'. apply (IH s' X E P rest Q Hcs); [eapply good_irrelevant; eauto|exact Hcv|].
+      intros s'' Hg'' Hs''. apply Hrest; [exact Hg''|]. eapply same_rel_trans; [eapply exec_irrelevant; eauto|exact Hs''].
+    + rewrite <- (late_length cs). apply psafe_skip_app; [now apply (good_safe_c s X)|].
+      exact (proj1 (Hrest s Hg (same_rel_refl s))).
+Qed.
+
+Lemma entries_after_sub v gc ins outs : compact_ok v ins outs ->
+  incl (all_entries (op_next v (OpCompact gc ins outs))) (all_entries v).
+Proof.
+  intros [Hincl Hsub] e. unfold all_entries. cbn [op_next v_mem v_files]. rewrite !in_app_iff, !in_concat.
+  intros [H|(y & Hy & He)]; [now left|right]. rewrite in_apply_edit in Hy. destruct Hy as [[Hy _]|Hy]; [eauto|].
+  assert (Hc : In e (concat ins)) by (apply Hsub, in_concat; eauto).
+  apply in_concat in Hc. destruct Hc as (z & Hz & Hez). exists z. split; [now apply Hincl|exact Hez].
+Qed.
+
+(* a crash during a compaction leaves what the store held before it or what it holds after it; for
+   a garbage collection the latter is less (base: the entries after; pending: the ones before) *)
+Lemma compact_walk s v gc ins outs : Run s v -> compact_ok v ins outs ->
+  walk (compact_prog gc ins outs s) s (all_entries (op_next v (OpCompact gc ins outs))) (Some (all_entries v))
+       (fun s' => Run s' (op_next v (OpCompact gc ins outs))).
+Proof.
+  intros R Hok. pose proof (entries_after_sub v gc ins outs Hok) as Hsub. destruct Hok as [Hincl Hents].
+  pose proof (run_good s v R) as Hg. destruct R as [Hw Hst Hs Hl Hstrs Hlogs Hcur].
+  set (X := all_entries v) in *. set (E := all_entries (op_next v (OpCompact gc ins outs))) in *.
+  set (P := Some X).
+  assert (HcX : covers E P X).
+  { apply (covers_set_eq E P (E ++ X)); [|apply covers_pend].
+    intros e. rewrite in_app_iff. split; [intros [H|H]; [now apply Hsub|exact H]|now right]. }
+  assert (HcE : covers E P E) by apply covers_refl.
+  unfold compact_prog.
   set (d := sort_entries (concat ins)). set (eo := enumerate 0 outs). set (rl := filter (fun x => negb (mem_sname x outs)) ins).
   (* where every branch ends *)
   assert (Hfinal : forall s9, Good s9 E -> mani_strs s9 = apply_edit (v_files v) (CkEdit outs ins) ->
@@ -149,7 +194,7 @@ Proof.
   (* A and B: the left-over directory, the fresh directory *)
   rewrite if_must. rewrite app_assoc, <- must_app.
   apply walk_app_must.
-  eapply walk_conseq; [|apply walk_irrelevant; [|exact Hg]].
+  eapply walk_conseq; [|apply (walk_irrelevant_c _ s X E P); [|exact Hg|exact HcX]].
   2:{ apply Forall_app. split; [|repeat constructor; intros n [<-|[]]; reflexivity].
       destruct (exists_name (NCompDir d) s); [|constructor].
       apply Forall_app. split; [|repeat constructor; intros n [<-|[]]; reflexivity].
@@ -161,12 +206,12 @@ Proof.
   change (flat_map (fun ix : nat * sname => [CCreate (NComp d (fst ix)); CWrite (NComp d (fst ix)) (CkSst (snd ix)); CSync (NComp d (fst ix))]) eo)
     with (flat_map (out_calls d) eo).
   apply walk_app_must.
-  eapply walk_conseq; [|apply (outputs_walk d eo 0%nat s2 E None Hg2); [intros; lia|apply enumerate_nodup]].
+  eapply walk_conseq; [|apply (outputs_walk d eo 0%nat s2 X E P Hg2 HcX); [intros; lia|apply enumerate_nodup]].
   cbn beta. intros s3 (Hg3 & Hsrc3 & Ho3).
   assert (Hrel3 : forall n, relevant n = true -> lookup n s3 = lookup n s).
   { intros n Hn. rewrite Ho3; [now apply Hsame2|]. intros j _ ->. discriminate. }
   (* D: the links *)
-  apply links_walk; [exact Hg3|exact Hsrc3|].
+  apply (links_walk d eo s3 X E P); [exact Hg3|exact HcX|exact Hsrc3|].
   intros s4 Hg4 Hall4 Ho4 Hmono4.
   assert (Hstrs4 : mani_strs s4 = v_files v).
   { rewrite <- Hstrs. unfold mani_strs, mani_edits. rewrite Ho4 by discriminate. now rewrite Hrel3. }
@@ -174,24 +219,23 @@ Proof.
   { intros n. rewrite Ho4 by discriminate. now apply Hrel3. }
   (* E: the manifest edit *)
   cbn [app].
-  apply (mani_block_defer outs ins _ s4 E E None); [|exact Hg4| | |now left|].
+  apply (mani_block_defer outs ins None _ s4 X E E P); [|exact Hg4| | |exact HcX|exact HcE|].
   { assert (Hr : cleanup_like (map (fun x => (CRename (NSst x) (NTrashSst x), Retire)) rl))
       by (apply Forall_forall; intros cm Hcm; apply in_map_iff in Hcm; destruct Hcm as (x & <- & _); now left).
     assert (Hc : cleanup_like (must (map (fun ix : nat * sname => CUnlink (NComp d (fst ix))) eo ++ [CRmdir (NCompDir d)]))).
     { apply Forall_forall. intros cm Hcm. unfold must in Hcm. apply in_map_iff in Hcm. destruct Hcm as (c & <- & Hc).
-      right. split; [reflexivity|]. rewrite Forall_forall in Hclean. now apply Hclean. }
+      right. left. split; [reflexivity|]. rewrite Forall_forall in Hclean. now apply Hclean. }
+    pose proof (late_cleanup_like _ Hclean) as Hcl.
     destruct gc; apply Forall_app; auto. }
   { intros x Hx. destruct (enumerate_in outs 0%nat x Hx) as (i & Hi). apply (Hall4 i x Hi). }
-  { intros e. destruct Hg4 as [_ (_ & _ & _ & C)]. rewrite (C e), Hstrs4. split.
-    - intros [(y & Hy & He)|H]; [|now right]. left.
-      destruct (mem_sname y ins) eqn:Em.
-      + apply mem_sname_in in Em.
-        assert (Hc : In e (concat outs)) by (apply Hents, in_concat; eauto).
-        apply in_concat in Hc. destruct Hc as (z & Hz & Hez). exists z. split; [|exact Hez]. rewrite in_apply_edit. now right.
-      + apply mem_sname_not_in in Em. exists y. split; [|exact He]. rewrite in_apply_edit. left. auto.
-    - intros [(y & Hy & He)|H]; [|now right]. left. rewrite in_apply_edit in Hy. destruct Hy as [[Hy _]|Hy]; [eauto|].
-      assert (Hc : In e (concat ins)) by (apply Hents, in_concat; eauto).
-      apply in_concat in Hc. destruct Hc as (z & Hz & Hez). exists z. split; [now apply Hincl|exact Hez]. }
+  { (* what the store holds after the edit: the memtable (the log) and the new set of tables *)
+    intros e. rewrite Hstrs4. unfold E, all_entries. cbn [op_next v_mem v_files]. rewrite in_app_iff, in_concat.
+    destruct Hcur as (lf & Hlf & Hmem). split.
+    - intros [H|(y & Hy & He)]; [right|left; eauto].
+      exists (v_cur v), lf. split; [now rewrite Hlog4|now rewrite Hmem].
+    - intros [(y & Hy & He)|(n & f & Hn & He)]; [right; eauto|left].
+      rewrite Hlog4 in Hn. assert (n = v_cur v) by (apply Hlogs; congruence). subst n.
+      rewrite Hlf in Hn. inversion Hn; subst f. now rewrite <- Hmem. }
   intros s7 Hg7 Hstrs7 Ho7.
   assert (Hlog7 : forall n, lookup (NLog n) s7 = lookup (NLog n) s).
   { intros n. rewrite Ho7 by discriminate. apply Hlog4. }
@@ -200,7 +244,7 @@ Proof.
     apply negb_true_iff, mem_sname_not_in in Hxo. rewrite Hstrs7, in_apply_edit. intros [[_ Hn]|Ho]; contradiction. }
   destruct gc.
   - (* garbage collection: the inputs are retired inside install_version, then the clean-up *)
-    apply trash_walk; [exact Hg7|exact Hret|].
+    apply (trash_walk rl s7 E E P); [exact Hg7|exact HcE|exact Hret|].
     intros s8 Hg8 Hstrs8 Ho8.
     rewrite <- (app_nil_r (must _)). apply walk_app_must.
     eapply walk_conseq; [|apply walk_irrelevant; [exact Hclean|exact Hg8]].
@@ -209,11 +253,10 @@ Proof.
     + rewrite (same_rel_strs _ _ Hsame9), Hstrs8, Hstrs7, Hstrs4. reflexivity.
     + intros n. rewrite (Hsame9 (NLog n) eq_refl), Ho8 by (try discriminate; reflexivity). apply Hlog7.
   - (* merge: the clean-up first; the snapshot held for the split hints retires the inputs last *)
-    apply walk_app_must.
-    eapply walk_conseq; [|apply walk_irrelevant; [exact Hclean|exact Hg7]].
-    cbn beta. intros s8 (_ & Hg8 & Hsame8).
+    apply (late_walk _ s7 E E P); [exact Hclean|exact Hg7|exact HcE|].
+    intros s8 Hg8 Hsame8.
     rewrite <- (app_nil_r (map _ rl)).
-    apply trash_walk; [exact Hg8|intros x Hx; rewrite (same_rel_strs _ _ Hsame8); now apply Hret|].
+    apply (trash_walk rl s8 E E P); [exact Hg8|exact HcE|intros x Hx; rewrite (same_rel_strs _ _ Hsame8); now apply Hret|].
     intros s9 Hg9 Hstrs9 Ho9.
     apply walk_nil; [now apply good_safe|]. apply Hfinal; [exact Hg9| |].
     + rewrite Hstrs9, (same_rel_strs _ _ Hsame8), Hstrs7, Hstrs4. reflexivity.
